@@ -34,6 +34,14 @@ CLAIMED['C09'] = dict(
     technique=PYVC + '; loop invariants + ghost prefix sums over generator code; bounded differential against an RFC reference decoder',
 )
 
+CLAIMED['C16'] = dict(
+    category='proof',
+    text='Contracts on the real nlri/flow.py: Flow._encode_length and the length decode of Flow.unpack_nlri against RFC 8955 4.1 (one byte below 240, 0xFnnn up to 4095, refusal above / when truncated); CommonOperator.eol/operator/length and _len_to_bit/_bit_to_len against the operator-byte layout; the three value encoders (shortest allowed width, big-endian) and IOperation.pack for each width class; Flow._parse_operations (loop invariant: each operator/value pair is read from exactly the next 1+width bytes of the same buffer, stops at the first end-of-list, refuses truncation) and Flow._parse_rules (a rule is returned only when the whole payload was walked: an undefined component or truncated value can never leave a shorter rule). All discharged by z3. Bounded complement: generated configuration text through the real parser against an RFC reference encoder, and reference-encoded rules with structured mutations through the real decoder.',
+    note='Text parser (configuration/flow/*), Flow._pack_from_rules (EOL placement, ordering), prefix components (IPrefix4/6.make) and the traffic-action extended communities are covered by the bounded layer only; prefix components enter _parse_rules through an assumed contract.',
+    ref='DESIGN.md §6 C16',
+    technique=PYVC + '; sub-view loop invariants over the NLRI buffer; bounded differential against an RFC 8955 reference encoder/decoder',
+)
+
 NOT_YET = 'check not built yet in this session (planned in DESIGN.md §6); not claimed until its obligations are discharged'
 NA = {}
 
